@@ -224,6 +224,15 @@ func expectedFromTwin(twinOut, payloadOut string, pt *PanicTarget, name string) 
 		rep = append([]seg{{ctxUnsafe, head}}, ps...)
 		rep = append(rep, seg{ctxUnsafe, ")"})
 	}
+	// The one seam rule the expectation has to know: text that ends in an
+	// invalid (e.g. truncated) UTF-8 sequence gains a '?' when the mode is
+	// switched right after it. In the twin the token follows in the same
+	// mode; in the faulted call the report's head may not.
+	if len(rep) > 0 && rep[0].unsafe != T[at].unsafe && left != "" {
+		if r, n := utf8.DecodeLastRuneInString(left); n == 1 && r == utf8.RuneError {
+			left += "?"
+		}
+	}
 	var exp []seg
 	exp = append(exp, T[:at]...)
 	exp = append(exp, seg{T[at].unsafe, left})
